@@ -268,6 +268,8 @@ func (s *sshSimulatorService) Handle(ctx context.Context, conn net.Conn) error {
 		}
 
 		func() {
+			shellStarted := false
+
 			for req := range requests {
 				log.Debugf("Request: %s %s %s %s\n", channel, req.Type, req.WantReply, req.Payload)
 
@@ -360,8 +362,13 @@ func (s *sshSimulatorService) Handle(ctx context.Context, conn net.Conn) error {
 					options...,
 				))
 
-				func() {
-					if req.Type == "shell" {
+				if req.Type == "shell" && !shellStarted {
+					shellStarted = true
+
+					// the session runs beside this loop: requests that arrive meanwhile (window-change,
+					// env, ...) have to be taken off the channel's queue, or the whole connection stalls
+					// once that queue is full - and then never notices that the client has gone
+					go func() {
 						defer channel.Close()
 
 						// should only be started in req.Type == shell
@@ -404,15 +411,12 @@ func (s *sshSimulatorService) Handle(ctx context.Context, conn net.Conn) error {
 
 							term.Write([]byte(fmt.Sprintf("%s: command not found\n", line)))
 						}
-					} else if req.Type == "exec" {
-						defer channel.Close()
-
-						channel.Write([]byte(fmt.Sprintf("%s: command not found\n", "ls")))
-						channel.SendRequest("exit-status", false, []byte{0, 0, 0, 0})
-						return
-					} else {
-					}
-				}()
+					}()
+				} else if req.Type == "exec" {
+					channel.Write([]byte(fmt.Sprintf("%s: command not found\n", "ls")))
+					channel.SendRequest("exit-status", false, []byte{0, 0, 0, 0})
+					channel.Close()
+				}
 			}
 		}()
 	}
